@@ -727,6 +727,15 @@ def make_iter(M, st, fr, t, args, site):
     return NotImplemented
 
 
+@pattern(r"^core::slice::<impl \[T\]>::chunks$|^core::slice::<impl \[T\]>::chunks_exact$")
+def make_chunks(M, st, fr, t, args, site):
+    v = deref_arg(M, st, args[0])
+    n = M.as_int(st, args[1])
+    if v[0] in ('unk', 'unkvar') and n is not None and sx.is_const(n) and sx.cval(n) > 0:
+        return ('iter', v[2], (("chunks", sx.cval(n)),), v[3], False)
+    return NotImplemented
+
+
 @pattern(r"^std::iter::Iterator::(enumerate|skip|rev|take|step_by|filter|map|peekable|chain|zip|cloned|copied)$")
 def iter_adapter(M, st, fr, t, args, site):
     v = args[0]
@@ -752,14 +761,26 @@ def iter_next(M, st, fr, t, args, site):
     ety = ot["args"][0]
     et = fr.crate.types[ety]
     ads = [x[0] for x in v[2]]
-    if any(x not in ("enumerate", "skip", "rev", "take", "step_by", "filter", "peekable", "chain") for x in ads):
+    if any(x not in ("enumerate", "skip", "rev", "take", "step_by", "filter", "peekable", "chain", "chunks") for x in ads):
         return NotImplemented
+    chunk_n = None
+    for x in v[2]:
+        if x[0] == "chunks":
+            chunk_n = x[1]
     st.events.append(('iter-next', v[1], v[2], site))
     nth = st.notes.get("iter:" + v[1], 0)
     st.notes["iter:" + v[1]] = nth + 1
     elem_name = "%s[i]" % v[1] if nth == 0 else "%s[i+%d]" % (v[1], nth)
     isym = S("i(%s)" % v[1], 64, False)
     st.doms.setdefault(isym, sx.dom_range(0, 1 << 62))
+    if chunk_n is not None:
+        # chunks(n): every element is a non-empty slice of at most n items; there are ceil(len/n) of them
+        elem_name = "%s[chunk i]" % v[1] if nth == 0 else "%s[chunk i+%d]" % (v[1], nth)
+        cl = S(elem_name + "#len", 64, False)
+        st.doms[cl] = sx.dom_range(1, chunk_n)
+        srclen = st.doms.get(S(v[1] + "#len", 64, False))
+        if srclen is not None and sx.dom_max(srclen) < (1 << 40):
+            st.doms[isym] = sx.dom_range(0, max(0, -(-sx.dom_max(srclen) // chunk_n) - 1))
 
     def elem_of(ty_ix):
         tt = fr.crate.types[ty_ix]
